@@ -19,9 +19,9 @@ class Min(Validator):
 
     @overrides(Validator)
     def validate(self, value: Union[int, float]) -> Union[int, float]:
-        if value < self._value and self._include_boundary:
+        if self._include_boundary and not value >= self._value:  # `not >=` also rejects NaN
             self.raise_exception(msg=f'smaller then allowed: {value} is not >= {self._value}', value=value)
-        elif value <= self._value and not self._include_boundary:
+        elif not self._include_boundary and not value > self._value:
             self.raise_exception(msg=f'smaller then allowed: {value} is not > {self._value}', value=value)
 
         return value
